@@ -16,3 +16,16 @@ pub fn list_parts(xlsx: &[u8]) -> Result<Vec<String>, String> {
     let z = zip::ZipArchive::new(std::io::Cursor::new(xlsx)).map_err(|e| format!("zip: {}", e))?;
     Ok(z.file_names().map(|s| s.to_string()).collect())
 }
+
+/// every part of the package, decompressed
+pub fn all_parts(xlsx: &[u8]) -> Result<std::collections::BTreeMap<String, Vec<u8>>, String> {
+    let mut z = zip::ZipArchive::new(std::io::Cursor::new(xlsx)).map_err(|e| format!("zip: {}", e))?;
+    let mut m = std::collections::BTreeMap::new();
+    for i in 0..z.len() {
+        let mut f = z.by_index(i).map_err(|e| format!("zip entry {}: {}", i, e))?;
+        let mut v = vec![];
+        f.read_to_end(&mut v).map_err(|e| format!("{}: {}", f.name(), e))?;
+        m.insert(f.name().to_string(), v);
+    }
+    Ok(m)
+}
